@@ -72,3 +72,15 @@ def ff_block_with_nonbonded_span_mixed_nrexcl_and_itp_file_read_later(f):
 
 def two_from_itp_fragments_with_keys_not_in_resid_order(f):
     return f.get("dimension") == "relabel"
+
+
+def atom_deleting_link_applied(f):
+    return bool(f.get("removal_link"))
+
+
+def atom_deleting_link_removes_node_1_or_2(f):
+    return bool(f.get("removal_link"))
+
+
+def atom_deleting_link_and_requested_edge_without_link(f):
+    return bool(f.get("removal_link"))
